@@ -382,6 +382,35 @@ func RunC13(seed int64, tier, out string) {
 			res.Fail(hx.Failure{Site: k.Name + ".Decode", InputClass: class, What: fmt.Sprintf("decoder panicked: %v", perr), Case: idx,
 				Replay: map[string]string{"kind": k.Name, "bytes": fmt.Sprintf("%x", bs)}})
 		}
+		// an accepted encoding whose header declares more than a documented limit (read straight from
+		// the bytes: the counts are the little-endian u16 fields at fixed offsets)
+		if o == "ok" {
+			u16at := func(off int) int {
+				if off+2 > len(bs) {
+					return 0
+				}
+				return int(bs[off]) | int(bs[off+1])<<8
+			}
+			var declared []int
+			var limits []int
+			switch k.Name {
+			case "KBals":
+				declared, limits = []int{u16at(0), u16at(2)}, []int{channel.MaxNumAssets, channel.MaxNumParts}
+			case "KAlloc":
+				declared, limits = []int{u16at(0), u16at(2), u16at(4)}, []int{channel.MaxNumAssets, channel.MaxNumParts, channel.MaxNumSubAllocations}
+			case "KState":
+				declared, limits = []int{u16at(40), u16at(42), u16at(44)}, []int{channel.MaxNumAssets, channel.MaxNumParts, channel.MaxNumSubAllocations}
+			case "KSub":
+				declared, limits = []int{u16at(32)}, []int{channel.MaxNumAssets}
+			}
+			for i := range declared {
+				if declared[i] > limits[i] {
+					res.Fail(hx.Failure{Site: k.Name + ".Decode", InputClass: class + "/declared-over-limit", Case: idx,
+						What:   fmt.Sprintf("an encoding whose header field %d declares %d (limit %d) was accepted", i, declared[i], limits[i]),
+						Replay: map[string]string{"kind": k.Name, "bytes": fmt.Sprintf("%x", bs)}})
+				}
+			}
+		}
 		if len(res.Samples) < 6 && o != "ok" && class != "random" {
 			res.Sample(map[string]interface{}{"kind": k.Name, "class": class, "bytes": fmt.Sprintf("%x", bs), "outcome": o})
 		}
@@ -486,6 +515,10 @@ func RunC13(seed int64, tier, out string) {
 		{"KSub", "at-limit/bals-1024", cat(zeros(32), u16(1024), zeros(1024), u16(0))},
 		{"KAlloc", "over-limit/assets-1025", cat(u16(1025), u16(1), u16(0), rep(asset, 1025), u16(1025), u16(1), zeros(1025))},
 		{"KAlloc", "over-limit/parts-1025", cat(u16(1), u16(1025), u16(0), asset, u16(1), u16(1025), zeros(1025))},
+		{"KAlloc", "over-limit/header-parts-1025-body-legal", cat(u16(1), u16(1025), u16(0), asset, u16(1), u16(2), zeros(2))},
+		{"KAlloc", "over-limit/header-parts-65535-body-legal", cat(u16(1), u16(65535), u16(0), asset, u16(1), u16(2), zeros(2))},
+		{"KAlloc", "over-limit/header-assets-1025-body-legal", cat(u16(1025), u16(2), u16(0), asset, u16(1), u16(2), zeros(2))},
+		{"KAlloc", "over-limit/header-locked-1025-body-legal", cat(u16(1), u16(2), u16(1025), asset, u16(1), u16(2), zeros(2))},
 		{"KAlloc", "over-limit/parts-1025-header-lies", cat(u16(1), u16(2), u16(0), asset, u16(1), u16(1025), zeros(1025))},
 		{"KAlloc", "over-limit/locked-1025", cat(u16(1), u16(1), u16(1025), asset, u16(1), u16(1), zeros(1), rep(cat(zeros(32), u16(1), zeros(1), u16(0)), 1025))},
 	}
